@@ -112,6 +112,7 @@ theorem handleReq_ok (cfg : Cfg) (R : RespTab) (c : Conn) (h : CountFaultFree R.
     · exact ⟨rfl, rfl, by simp [CountFaultFree]⟩
   · exact replyPre_ok cfg R c _ _ _ h
   · exact ⟨rfl, rfl, h⟩
+  · exact replyPre_ok cfg R { c with inClose := true } _ _ _ h
   · split
     · exact runReply_ok R _ _ true h
     · exact ⟨rfl, rfl, h⟩
